@@ -456,4 +456,13 @@ def explore(run, tier):
                     v = good[:base + 4] + repl + good[base + 8:]
                     for tool in ('mci_ipm_to_csv', 'mideu'):
                         cases.append({'k': 'cli', 'cfg': 'pkg', 'codec': codec, 'b': blocked, 'data': v.hex(), 'tool': tool})
+    # files that hold NO record: empty, the terminator only (plain, in one 1014 block, followed by junk), stray bytes
+    # shorter than a length prefix — through both tools and both formats: a diagnostic or an empty table, never a traceback
+    for data in (b'', b'\x00' * 4, b'\x00' * 4 + b'\x40' * 1008 + b'\x40\x40', b'\x00' * 4 + b'junk after the end',
+                 b'\x00', b'\x00\x00\x00', b'\x40' * 1014, b'\x00' * 1012 + b'\x40\x40'):
+        for codec in ('latin_1', 'cp500'):
+            for blocked in (0, 1):
+                for tool in ('mci_ipm_to_csv', 'mideu'):
+                    cases.append({'k': 'cli', 'cfg': 'pkg', 'codec': codec, 'b': blocked, 'data': data.hex(), 'tool': tool})
+                cases.append({'k': 'file', 'cfg': 'pkg', 'codec': codec, 'b': blocked, 'data': data.hex(), 'reader': 'ipm'})
     run.correspond(__name__, cases, use_model=run.use_model, chunk=200)
